@@ -104,6 +104,20 @@ class SArr(real_np.ndarray):
     def tolist(self):
         return real_np.asarray(self).tolist()
 
+    def _concrete(self):
+        """a C boundary needs the raw values: concretise every entry (forks the path per symbolic entry)"""
+        a = real_np.asarray(self)
+        if a.dtype != object:
+            return a
+        flat = [bool(x) if _is_boolish(x) else int(x) for x in a.reshape(-1)]
+        return real_np.array(flat, dtype=bool if flat and all(isinstance(v, bool) for v in flat) else real_np.int64).reshape(a.shape)
+
+    def tobytes(self, *a, **k):
+        return self._concrete().tobytes(*a, **k)
+
+    def tostring(self, *a, **k):
+        return self._concrete().tobytes(*a, **k)
+
 
 def S(a):
     if isinstance(a, real_np.ndarray) and a.dtype == object and not isinstance(a, SArr):
